@@ -11,9 +11,16 @@ from .. import core, runner
 THEOREMS = ["ZI.Components.C16_unregisterUtility", "ZI.Components.C16_registerUtility_events", "ZI.Components.C16_adapters", "ZI.Components.C16_subscriptions",
             "ZI.Components.cacheUnregister_listing", "ZI.Components.C16_pinned_violates"]
 NAMES = ["", "a"]
-REQ = [(3,), (4,), (3, 4)]
-EXT = {1: {1, 0}, 2: {2, 1, 0}, 3: {3, 0}, 4: {4, 3, 0}}       # P2(P1), R2(R1)
-SRO = {1: [1, 0], 2: [2, 1, 0], 3: [3, 0], 4: [4, 3, 0]}
+# required specifications: 3 = R1, 4 = R2(R1), 0 = Interface (also spelled None), 5 = implementedBy(K) with K implementing R1
+# (also spelled by passing the class K itself; 6 = implementedBy(object), in its resolution order).  Marker tokens in the required field, ignored by the model: `@` = the
+# `required` argument is omitted and read from factory.__component_adapts__; `~` = Interface is spelled None
+REQ = [(3,), (4,), (3, 4), (3,), (4,), (3, 4), (5,), (0,), (0, 4), (5, 3)]
+EXT = {0: {0}, 1: {1, 0}, 2: {2, 1, 0}, 3: {3, 0}, 4: {4, 3, 0}, 5: {5, 3, 6, 0}, 6: {6, 0}}       # P2(P1), R2(R1), implementedBy(K) -> R1
+SRO = {0: [0], 1: [1, 0], 2: [2, 1, 0], 3: [3, 0], 4: [4, 3, 0], 5: [5, 3, 6, 0], 6: [6, 0]}
+
+
+def reqt(s):
+    return tuple(int(x) for x in s.split() if x.isdigit())
 
 
 class Spec:
@@ -32,7 +39,7 @@ def eq(a, b):
 
 def gen_script(rnd, tier, state):
     L = ["reset"]
-    for i in range(1, 5):
+    for i in range(0, 7):
         L.append("sro|%d|%s" % (i, " ".join(map(str, SRO[i]))))
     S = Spec()
     pool = []
@@ -49,6 +56,13 @@ def gen_script(rnd, tier, state):
 
     def sv(v):
         return "N" if v is None else "%d %d %d" % v
+
+    def mark(rs, v):
+        if v is not None and rnd.random() < 0.3:
+            rs = "@ " + rs
+        if "0" in rs.split() and rnd.random() < 0.5:
+            rs = "~ " + rs
+        return rs
     mix = rnd.random() < 0.4        # allow an unhashable component equal to a hashable one
     for step in range(rnd.randint(5, 40 if tier == "thorough" else 28)):
         k = rnd.random()
@@ -89,7 +103,7 @@ def gen_script(rnd, tier, state):
                 del S.util[(p, n)]
         elif k < 0.55:
             v = val(mix)
-            L.append("regA|%s|%s|%d|%s" % (sv(v), rs, p, n))
+            L.append("regA|%s|%s|%d|%s" % (sv(v), mark(rs, v), p, n))
             S.adap[(req, p, n)] = v
         elif k < 0.65:
             if S.adap and rnd.random() < 0.75:
@@ -99,12 +113,12 @@ def gen_script(rnd, tier, state):
                 old = S.adap.get((req, p, n))
             r = rnd.random()
             v = None if (old is None or r < 0.35) else old if r < 0.55 else (0, old[1], old[2]) if r < 0.8 else val(mix)
-            L.append("unregA|%s|%s|%d|%s" % (sv(v), rs, p, n))
+            L.append("unregA|%s|%s|%d|%s" % (sv(v), mark(rs, v), p, n))
             if old is not None and (v is None or eq(v, old)):
                 del S.adap[(req, p, n)]
         elif k < 0.75:
             v = val(mix)
-            L.append("regS|%s|%s|%d" % (sv(v), rs, p))
+            L.append("regS|%s|%s|%d" % (sv(v), mark(rs, v), p))
             S.subs.append((req, p, v))
         elif k < 0.83:
             if S.subs and rnd.random() < 0.8:
@@ -113,11 +127,11 @@ def gen_script(rnd, tier, state):
                 v = None if rnd.random() < 0.4 else (0, old[1], old[2])
             else:
                 v = None if rnd.random() < 0.4 else val(mix)
-            L.append("unregS|%s|%s|%d" % (sv(v), rs, p))
+            L.append("unregS|%s|%s|%d" % (sv(v), mark(rs, v), p))
             S.subs = [s for s in S.subs if not (s[0] == req and s[1] == p and (v is None or eq(v, s[2])))]
         elif k < 0.93:
             v = val(mix)
-            L.append("regH|%s|%s" % (sv(v), rs))
+            L.append("regH|%s|%s" % (sv(v), mark(rs, v)))
             S.hand.append((req, v))
         else:
             if S.hand and rnd.random() < 0.8:
@@ -126,7 +140,7 @@ def gen_script(rnd, tier, state):
                 v = None if rnd.random() < 0.4 else (0, old[1], old[2])
             else:
                 v = None if rnd.random() < 0.4 else val(mix)
-            L.append("unregH|%s|%s" % (sv(v), rs))
+            L.append("unregH|%s|%s" % (sv(v), mark(rs, v)))
             S.hand = [s for s in S.hand if not (s[0] == req and (v is None or eq(v, s[1])))]
         L += ["listU", "listA", "listS", "listH"]
         for pp in (1, 2):
@@ -136,6 +150,8 @@ def gen_script(rnd, tier, state):
             L.append("allU|%d" % pp)
             L.append("forU|%d" % pp)
             L.append("subsA|4|%d" % pp)
+            L.append("qA|5|%d|" % pp)
+        L.append("subsA|5|N")
         L.append("subsA|4|N")
         L.append("subsA|3 4|N")
         L.append("probe")
@@ -201,10 +217,10 @@ def oracle(chk, lines, outs, known=None):
                 else:
                     want_ret = "False"
             elif op == "regA":
-                S.adap[(tuple(int(x) for x in f[2].split()), int(f[3]), f[4])] = v
+                S.adap[(reqt(f[2]), int(f[3]), f[4])] = v
                 want_ev = ["R:Adapter"]
             elif op == "unregA":
-                key = (tuple(int(x) for x in f[2].split()), int(f[3]), f[4])
+                key = (reqt(f[2]), int(f[3]), f[4])
                 old = S.adap.get(key)
                 if old is not None and (v is None or eq(v, old)):
                     del S.adap[key]
@@ -212,10 +228,10 @@ def oracle(chk, lines, outs, known=None):
                 else:
                     want_ret = "False"
             elif op == "regS":
-                S.subs.append((tuple(int(x) for x in f[2].split()), int(f[3]), v))
+                S.subs.append((reqt(f[2]), int(f[3]), v))
                 want_ev = ["R:Subscription"]
             elif op == "unregS":
-                req, p = tuple(int(x) for x in f[2].split()), int(f[3])
+                req, p = reqt(f[2]), int(f[3])
                 new = [s for s in S.subs if not (s[0] == req and s[1] == p and (v is None or eq(v, s[2])))]
                 if len(new) != len(S.subs):
                     want_ret, want_ev = "True", ["U:Subscription"]
@@ -223,10 +239,10 @@ def oracle(chk, lines, outs, known=None):
                     want_ret = "False"
                 S.subs = new
             elif op == "regH":
-                S.hand.append((tuple(int(x) for x in f[2].split()), v))
+                S.hand.append((reqt(f[2]), v))
                 want_ev = ["R:Handler"]
             elif op == "unregH":
-                req = tuple(int(x) for x in f[2].split())
+                req = reqt(f[2])
                 new = [s for s in S.hand if not (s[0] == req and (v is None or eq(v, s[1])))]
                 if len(new) != len(S.hand):
                     want_ret, want_ev = "True", ["U:Handler"]
@@ -278,7 +294,7 @@ def oracle(chk, lines, outs, known=None):
                 else:
                     bad.append((i, msg))
         elif op == "subsA":
-            req = tuple(int(x) for x in f[1].split())
+            req = reqt(f[1])
             if f[2] == "N":
                 want = sorted(s[1][0] for s in S.hand if len(s[0]) == len(req) and all(a in EXT[b] for a, b in zip(s[0], req)))
             else:
@@ -289,7 +305,7 @@ def oracle(chk, lines, outs, known=None):
             if got != want:
                 bad.append((i, "subscriptions(%s, %s) = %s, live applicable %s: %s" % (req, f[2], got, "handlers" if f[2] == "N" else "subscription adapters", want)))
         elif op == "qA":
-            req = tuple(int(x) for x in f[1].split())
+            req = reqt(f[1])
             p, n = int(f[2]), f[3]
             cands = [(k, v) for k, v in S.adap.items() if k[2] == n and len(k[0]) == len(req) and all(a in EXT[b] for a, b in zip(k[0], req)) and p in EXT[k[1]]]
             got = None if out == "N" else int(out)
